@@ -444,9 +444,31 @@ def c06_unary(pairs):
             meta.append(('floor', a, exp_big_obs(R.floor_nonneg(a))))
         reqs.append(('num', 'nobs', i))
         meta.append(('obs', a, exp_num_obs(a)))
+    # NaN reached in different ways (negated, flipped zero, sum/product with NaN) is still just NaN as an operand
+    nan = next(k for k, v in enumerate(vals) if v is None)
+    zero = next(k for k, v in enumerate(vals) if v == 0)
+    N0 = T + 10
+    reqs += [('num', 'nun', 'neg', nan, N0), ('num', 'nun', 'minus', nan, N0 + 1), ('num', 'nun', 'flip', zero, N0 + 2),
+             ('num', 'nun', 'neg', N0 + 2, N0 + 3), ('num', 'nop', 'add', nan, zero, N0 + 4), ('num', 'nop', 'mul', N0, N0 + 1, N0 + 5)]
+    meta += [('nan-variant', None, None)] * 6
+    nans = [nan, N0, N0 + 1, N0 + 2, N0 + 3, N0 + 4, N0 + 5]
+    for x in nans:
+        for y in nans + [zero, 0, 1, 2]:
+            for op in ('add', 'mul'):
+                for (i, j) in ((x, y), (y, x)):
+                    reqs.append(('num', 'nop', op, i, j, T))
+                    meta.append(('nan-operand', (op, i - N0 if i >= N0 else ('nan' if i == nan else i), j - N0 if j >= N0 else ('nan' if j == nan else j)), '0 1 1'))
+                    reqs.append(('num', 'nobs', T))
+                    meta.append(('nan-operand:text', (op, i - N0 if i >= N0 else ('nan' if i == nan else i), j - N0 if j >= N0 else ('nan' if j == nan else j)), exp_num_obs(None)))
     resps = sh.batch(reqs)
     for (op, a, exp), resp in zip(meta, resps):
         st.inc('transitions')
+        if op == 'nan-variant':
+            continue
+        if resp != exp and op.startswith('nan-operand'):
+            st.violate(Violation('C06', 'num', 'num:nan-operand', {'kind': 'nan_operand', 'what': str(a)},
+                                 exp, resp))
+            continue
         if resp != exp:
             st.violate(Violation('C06', 'num', 'num:' + op, {'kind': 'num_unary', 'op': op, 'a': R.num_text(a)},
                                  exp, resp))
@@ -1006,6 +1028,12 @@ def replay(case):
     if k == 'big_from_string':
         v = int(case['value'])
         return exp_big_obs(v), sh.call('num', 'bstr', 0, case['base'], R.to_base(v, case['base']))
+    if k == 'nan_operand':
+        st = c06_unary(rat_alphabet('quick'))
+        for v in st.violations:
+            if v.case.get('kind') == 'nan_operand':
+                return v.expected, v.observed
+        return 'NaN absorbing', 'NaN absorbing'
     if k == 'num_fragile':
         v = R.parse_num_text(case['value'])
         st = c09_fragile([v])
